@@ -385,6 +385,11 @@ func (w *e2World) socketpair() (int, int) {
 		vInfra("socketpair: %v", err)
 	}
 	w.fds[fds[0]], w.fds[fds[1]] = true, true
+	// Both ends are non-blocking: netpoll's end is anyway, and on a changed tree netpoll may read a
+	// descriptor number it should no longer use - on a blocking peer end that read (a raw system call
+	// on the poller's thread) would wedge the whole test process instead of ending in a verdict.
+	syscall.SetNonblock(fds[0], true)
+	syscall.SetNonblock(fds[1], true)
 	return fds[0], fds[1]
 }
 
